@@ -42,7 +42,7 @@ theorem surv_recvAuth {p : Packet} {s0 : St} (c seq ph : Nat) (d : RecvData) (h0
                 | some r => exact ⟨r, rfl⟩
               subst hrid
               have hP : PktOk s0 (mkRecvPacket s0 c seq ph ((some rid).getD []) d tgt) := by
-                refine ⟨hra, ?_, hph, hseq⟩
+                refine ⟨hra, ?_, hph, hseq, by simp [mkRecvPacket]⟩
                 simp [mkRecvPacket]
               apply Surv.setOther (s := addByAddr s0 _ _) (Surv.of_mem hp hs)
               intro hk
@@ -101,7 +101,7 @@ theorem surv_ackOpen {p : Packet} {s s' : St} {c seq ph : Nat} {isTimeout isErr 
             | some r => exact ⟨r, rfl⟩
           subst hrid
           have hP : PktOk s0 (mkSentPacket s0 x (sentType isTimeout) ph ((some rid).getD []) (!isTimeout && isErr)) := by
-            refine ⟨hra, ?_, hph, hseq⟩
+            refine ⟨hra, ?_, hph, hseq, by cases isTimeout <;> simp [mkSentPacket, sentType]⟩
             simp [mkSentPacket, sentType_ne_recv]
           have key : Surv p (setPacket (addByAddr s0 (mkSentPacket s0 x (sentType isTimeout) ph ((some rid).getD []) (!isTimeout && isErr)).target
               (pkey (mkSentPacket s0 x (sentType isTimeout) ph ((some rid).getD []) (!isTimeout && isErr))))
